@@ -512,10 +512,6 @@ class eval_abs(object):
         ret_value = self.parity(args[0])
         return ret_value
 
-    def eval_op_int_32_to_double(self, args, op_size, cast_int):
-        ret_value, = struct.unpack('f', struct.pack('I', args[0]))
-        return ret_value
-
     def objbyid_default0(self, args, op_size, cast_int):
         return ExprOp("objbyid_default0", ExprInt(cast_int(args[0])))
 
@@ -546,7 +542,6 @@ class eval_abs(object):
                'bsf':eval_op_bsf,
                'bsr':eval_op_bsr,
                'parity':eval_op_parity,
-               'int_32_to_double':eval_op_int_32_to_double,
 
                #XXX
                'objbyid_default0':objbyid_default0,
